@@ -1,5 +1,5 @@
 """C08 — verbatim content and recorded markup come from the source, unaltered.
-Proof: Props/C08.v (thematic-break markup = its marker characters).  Correspondence (binding):
+Proof: Props/C08.v (getLines verbatim for every state; code / fence / html_block content; fence, heading, hr markup; code spans).  Correspondence (binding):
 whole-pipeline model vs implementation on token dicts (content, markup, info, attrs, maps).
 Property on the implementation: the verbatim predicate on every parse."""
 import docs
@@ -9,7 +9,10 @@ import propcheck
 PRE = ["> ", ">", "- ", "-\t", "1. ", "1.\t", "  ", "\t", " \t", "", "", "   > ", ">\t"]
 LEAF = ["```\nfoo\n  bar\n\tbaz\n```", "~~~ info str\n x\n\n y\n~~~~", "    code\n\tmore\n\n    end", "<pre>\n x\n\n</pre>", "<div>\n  a\n\tb",
         "---", "***", "- - -", "_ _ _ _", "* * *", "-\t-\t-", "# h #", "###### six", "x\n===", "y\n---", "`a`", "`` `b ``", "` `", "`   `", "`  c  `",
-        "` \xa0 `", "x` \n `", "7. s", "123456789) n", "+ p", "````\n```\n````", "```\n```"]
+        "` \xa0 `", "x` \n `", "7. s", "123456789) n", "+ p", "````\n```\n````", "```\n```",
+        # blanks other than space / tab at the start of verbatim lines are content, not indentation
+        "  ```py\n \xa0x = 1\n  \x0cy\n  ```", "   ~~~\n\x0b v\n \u2003w\n   ~~~", "    code\n    \xa0z\n     \u3000q",
+        "<div>\n \x0cp\n\xa0\xa0r\n</div>", "\xa0\xa0\xa0\xa0not code", " \x1c#\u2028 h"]
 
 
 def verb_doc(rng):
@@ -32,8 +35,8 @@ def pred(ts, nsrc, env):
 def run(ctx):
     return parserprop.run_generic(
         ctx, "C08", "altered-verbatim-content", pred, verb_doc,
-        ["getLines / fence / code / html_block / heading / list markup theorems other than hr are not proved yet: carried by the pipeline correspondence (content, markup, info are compared) and the predicate on the implementation (partial)"],
-        "correspondence and predicate on: seed corpus, mutations, grammar, and verbatim leaves (fences with info, indented code with tabs, html blocks, thematic breaks of every shape, ATX/setext headings, code spans incl. NBSP padding and line ends, ordered markers) under container prefixes with tabs at every column; x standard and random configurations")
+        ["list / block quote markup, ordered-list start and 'first closing backtick string of that length' are not theorems: carried by the pipeline correspondence (content, markup, info are compared) and the predicate on the implementation (partial)"],
+        "correspondence and predicate on: seed corpus, mutations, grammar, and verbatim leaves (fences with info, indented code with tabs, html blocks, thematic breaks of every shape, ATX/setext headings, code spans incl. NBSP padding and line ends, ordered markers, verbatim lines that start with blanks other than space / tab) under container prefixes with tabs at every column; x standard and random configurations")
 
 
 def replay(body):
